@@ -57,3 +57,16 @@ func RunSeed(batch uint64, i int) uint64 {
 	r := Rng{s: batch ^ (uint64(i)+1)*0xd6e8feb86659fd93}
 	return r.Uint64() >> 1 // keep it positive as int64 for JSON consumers
 }
+
+// Perm returns a permutation of 0..n-1 (Fisher-Yates).
+func (r *Rng) Perm(n int) []int {
+	p := make([]int, n)
+	for i := range p {
+		p[i] = i
+	}
+	for i := n - 1; i > 0; i-- {
+		j := r.Intn(i + 1)
+		p[i], p[j] = p[j], p[i]
+	}
+	return p
+}
